@@ -37,8 +37,24 @@ class B(Node):
     def src(self): return "(%s %s %s)" % (self.l.src(), self.op, self.r.src())
 
 
-def gen_expr(rng, ty, ptys, depth, allow_div=True):
+class Post(Node):
+    """p++ / p-- / ++p / --p on a parameter: the value is the old (post) or new (pre) value"""
+    def __init__(self, i, ty, inc, post): self.i, self.ty, self.inc, self.post = i, ty, inc, post
+    def src(self):
+        o = "++" if self.inc else "--"
+        return ("p%d%s" % (self.i, o)) if self.post else ("%sp%d" % (o, self.i))
+
+
+class Asg(Node):
+    """(p = e) as an operand: stores, and yields the stored value"""
+    def __init__(self, i, e, ty): self.i, self.e, self.ty = i, e, ty
+    def src(self): return "p%d = %s" % (self.i, self.e.src())      # only as the right-hand side of a store: p0 = p1 = e
+
+
+def gen_expr(rng, ty, ptys, depth, allow_div=True, effects=False):
     same = [i for i, t in enumerate(ptys) if t == ty]
+    if effects and same and rng.random() < .18:
+        return Post(rng.choice(same), ty, rng.random() < .5, rng.random() < .7)
     if depth == 0 or rng.random() < .25:
         if same and rng.random() < .7: return P(rng.choice(same), ty)
         if ty == "float": return C(rng.choice([0.5, 1.0, 2.25, 8.0, 100.0, 0.125, 3.0]), ty)
@@ -46,9 +62,9 @@ def gen_expr(rng, ty, ptys, depth, allow_div=True):
                             else [0, 1, 2, 7, 63, 64, 65, 127, 128, 255, 8191, 8192, 70000, 2**31 - 1]), ty)
     if ty in ("int",) and rng.random() < .25:
         t = rng.choice(["int", "float"] + (["uint"] if "uint" in ptys else []))
-        return B(rng.choice(["<", ">", "=="]), gen_expr(rng, t, ptys, depth - 1, allow_div), gen_expr(rng, t, ptys, depth - 1, allow_div), "int")
+        return B(rng.choice(["<", ">", "=="]), gen_expr(rng, t, ptys, depth - 1, allow_div, effects), gen_expr(rng, t, ptys, depth - 1, allow_div, effects), "int")
     ops = ["+", "-", "*"] + (["/"] if allow_div else [])
-    return B(rng.choice(ops), gen_expr(rng, ty, ptys, depth - 1, allow_div), gen_expr(rng, ty, ptys, depth - 1, allow_div), ty)
+    return B(rng.choice(ops), gen_expr(rng, ty, ptys, depth - 1, allow_div, effects), gen_expr(rng, ty, ptys, depth - 1, allow_div, effects), ty)
 
 
 class Prog:
@@ -65,6 +81,9 @@ class Prog:
             if isinstance(e, B):
                 if e.op not in "+-*" or e.ty != "int": ok[0] = False
                 walk(e.l); walk(e.r)
+            elif isinstance(e, Asg):
+                if e.ty != "int": ok[0] = False
+                walk(e.e)
             elif e.ty != "int": ok[0] = False
         for _, e in self.stores: walk(e)
         walk(self.result)
@@ -75,9 +94,22 @@ class Prog:
         intermediate is representable in the 32-bit type and no division by zero occurred; ('div0', False) on x/0"""
         env = list(args)
         exact = [True]
+        def rep(r, ty):
+            if ty == "float":
+                if not f32_exact(r): exact[0] = False
+            elif ty == "uint":
+                if not (0 <= r < 2**32): exact[0] = False
+            elif not (I32_MIN <= r <= I32_MAX): exact[0] = False
         def ev(e):
             if isinstance(e, P): return env[e.i]
             if isinstance(e, C): return float(e.v) if e.ty == "float" else e.v
+            if isinstance(e, Post):
+                old = env[e.i]; new = old + (1 if e.inc else -1)
+                rep(new, e.ty); env[e.i] = new
+                return old if e.post else new
+            if isinstance(e, Asg):
+                v = ev(e.e); env[e.i] = v
+                return v
             a, b = ev(e.l), ev(e.r)
             if e.op in ("<", ">", "=="):
                 return int({"<": a < b, ">": a > b, "==": a == b}[e.op])
@@ -111,19 +143,24 @@ def gen_prog(rng, opts=None):
     ret = rng.choice([t for t in ["int", "float"]])
     stores = []
     for i, t in enumerate(ptys):
-        if rng.random() < .3: stores.append((i, gen_expr(rng, t, ptys, 1, allow_div=not opts.get("ring"))))
+        if rng.random() < .3:
+            e = gen_expr(rng, t, ptys, 1, allow_div=not opts.get("ring"), effects=bool(opts.get("effects")))
+            same = [j for j, u in enumerate(ptys) if u == t and j != i]
+            if opts.get("effects") and same and rng.random() < .3: e = Asg(rng.choice(same), e, t)      # chained: p_i = p_j = e
+            stores.append((i, e))
     if opts.get("ring"):
         ptys = ["int"] * nparams; ret = "int"
         stores = [(i, gen_expr(rng, "int", ptys, 1, allow_div=False)) for i, _ in stores]
-        result = gen_expr(rng, "int", ptys, 3, allow_div=False)
+        result = gen_expr(rng, "int", ptys, 3, allow_div=False, effects=bool(opts.get("effects")))
         result = strip_cmp(result)
         stores = [(i, strip_cmp(e)) for i, e in stores]
     else:
-        result = gen_expr(rng, ret, ptys, rng.choice([1, 2, 3, 4]))
+        result = gen_expr(rng, ret, ptys, rng.choice([1, 2, 3, 4]), effects=bool(opts.get("effects")))
     return Prog(ptys, ret, stores, result)
 
 
 def strip_cmp(e):
+    if isinstance(e, Asg): return Asg(e.i, strip_cmp(e.e), e.ty)
     if isinstance(e, B):
         if e.op in ("<", ">", "=="): return C(1, "int")
         return B(e.op, strip_cmp(e.l), strip_cmp(e.r), e.ty)
@@ -180,3 +217,26 @@ UNSUPPORTED = [
     "export function f(int a) -> int { return a; } export function g(float a) -> float { return a; }",
     "export function f(int a) -> int { return a; } export function f(float a) -> float { return a; }",
 ]
+
+
+# every binary operator on every scalar type, as one function each: whatever the backend translates must agree
+OPS13 = ["+", "-", "*", "/", "%", "<", "<=", ">", ">=", "==", "!=", "&&", "||"]
+
+
+def opgrid():
+    out = []
+    for op in OPS13:
+        for t in ("int", "uint", "float"):
+            r = t if op in ("+", "-", "*", "/", "%") else "int"
+            out.append(("export function f(%s a, %s b) -> %s { return a %s b; }" % (t, t, r, op), [t, t], r))
+            out.append(("export function f(%s a, %s b) -> %s { a = a %s b; return a; }" % (t, t, t, op), [t, t], t))
+    for t in ("int", "uint", "float"):
+        for stmt in ("return a++;", "return ++a;", "return a--;", "b = a++; return b;", "b = a++; return a;", "b = a; a = a + a; return b;",
+                     "a = b = a + b; return a;", "b = a = b; return a + b;", "a += b; return a;", "a *= b; b = a; return b;"):
+            out.append(("export function f(%s a, %s b) -> %s { %s }" % (t, t, t, stmt), [t, t], t))
+    return out
+
+
+GRID_ARGS = {"int": [(0, 0), (1, 2), (7, 3), (-7, 3), (7, -3), (-8, -3), (2**31 - 1, 1), (-2**31, 1), (-2**31, -1), (5, 0), (12345, 12345)],
+             "uint": [(0, 0), (1, 2), (7, 3), (3, 7), (2**31, 1), (2**32 - 1, 2**31), (1, 3000000000), (3000000000, 1), (2**32 - 1, 2**32 - 1), (5, 0)],
+             "float": [(0.0, 0.0), (1.0, 2.0), (2.5, 0.5), (-3.0, 2.0), (7.0, -2.0), (0.25, 0.25), (100.0, 8.0), (5.0, 0.0), (-0.125, 64.0)]}
